@@ -87,6 +87,31 @@ CLAIMED = {
          "Proof: Props/C09.lean for every function accepted by the decidable predicate funOK (350 of the 397 rule functions; the others are "
          "listed in the evidence and rest on the search); numpy itself is modelled (Core/ArrSem.lean), dtype promotion is not modelled; "
          "known findings: the documented style contains shapes the rewriter translates unsoundly (recorded per rule)."),
+ "C03": ("5/C03", "Lean 4 theorems on the model of numpy.vectorize with declared output type: dtype independent of the data, element = "
+         "cast of the rule's result, lossless for float, equivariance; kernel-checked witnesses that dtype *inference* depends on "
+         "the first row; model compared with the real _vectorize_func; search: every scalar rule's column vs the rule called row by "
+         "row, dtype vs declaration",
+         "Proof: Props/C03.lean; the wrapper model is tied to functions_loader._vectorize_func by exact differential runs; that each "
+         "rule's results are lossless for its declared type is explored on the real system (row-by-row recomputation), not proved."),
+ "C14": ("5/C14", "Lean 4 theorems on a state machine of the Python process (module bindings, injected names, registry, caller objects): "
+         "for the repaired transitions every operation is the identity on the state, hence history_indep by induction over the "
+         "history; kernel-checked two-step witnesses for the original (unrepaired) transitions; random histories of real API calls "
+         "compared with the model (process-state digests) and with fresh interpreters",
+         "Proof: Props/C14.lean covers the bookkeeping; 'equal to a fresh process' is inherently runtime and is explored (fresh-"
+         "interpreter oracle): partial there."),
+ "C15": ("5/C15", "Lean 4 theorems: constancy analysis over the dependency graph is sound (const_sound / constTable_sound: a node is "
+         "constant on every group of every level the analysis returns, for every valid population), refinement order of the seven "
+         "levels; the graph of the default targets is rebuilt from the real function set each run and analysed by the Lean model; "
+         "search with populations whose members differ in the individual-level inputs",
+         "Proof: Props/C15.lean; one obligation per suffixed node and date, evaluated by the Lean interpreter on the regenerated "
+         "graph (not kernel-decided); nodes in the cone of a recorded finding (three roots) are not claimed; the refinement order "
+         "(incl. eg within bg) is an assumption backed by the C12 theorems and checked on every generated population."),
+ "C20": ("5/C20", "Lean 4 theorems on the model of the input validators and type conversion: accepts_iff (declarative characterisation), "
+         "one rejection theorem per fault class, convert_lossless under the explicit 2^53 guard with a kernel-checked witness beyond "
+         "it, convert_rejects_lossy, warning_iff_converted; model compared with the real functions on every dtype pair and on random "
+         "fault-injected tables; fault injection on the real system",
+         "Proof: Props/C20.lean; pandas/numpy conversions are modelled from probes of the installed versions (table in "
+         "Core/Typing.lean) and compared on every run; sn-consistency of spouses is C12's snId_error_iff."),
 }
 
 NOT_YET = "check not built yet in this round (design in DESIGN.md §5); the property itself is in scope of the technique"
